@@ -1,8 +1,8 @@
 (* L1: mirror of the MaxSAT front-ends of gophersat,
      maxsat/problem.go:22  func New(constrs ...Constr) *Problem
-     maxsat/problem.go:93  func (pb *Problem) Solve() (Model, int)
-     maxsat/parser.go:48   func ParseWCNF(f io.Reader) (solver.Interface, error)
-     maxsat/parser.go:111  func parseWCNFClause(line string, topWeight, relaxLit int)
+     maxsat/problem.go:101 func (pb *Problem) Solve() (Model, int)
+     maxsat/parser.go:51   func ParseWCNF(f io.Reader) (solver.Interface, error)
+     maxsat/parser.go:114  func parseWCNFClause(line string, topWeight, relaxLit int)
      maxsat/parser.go:23   func (s *Solver) Optimal(results chan solver.Result, stop chan struct{})
    on top of Model/Optim.v.  Also the specification vocabulary of C04 (what a weighted
    partial MaxSAT instance means).  Definitions only; proofs are in Proofs/MaxSat.v. *)
@@ -50,17 +50,13 @@ Fixpoint violated_weight (mu : model) (inst : minst) : Z :=
   | c :: r => (if mc_hard c || mc_sat mu c then 0 else mc_weight c) + violated_weight mu r
   end.
 
-(* The instances for which C04 holds (Proofs/MaxSat.v gives counterexamples otherwise):
-   literals non-zero; coefficients absent or as many as literals, none is 0; weights >= 0;
-   in a soft constraint the coefficients are > 0 and, if explicit, AtLeast <> 0. *)
+(* The instances for which C04 holds: literals non-zero; coefficients absent or as many
+   as literals (otherwise GtEq panics, pb.go:64); weights >= 0 (0 = hard).  Negative and
+   null coefficients and any AtLeast are allowed. *)
 Definition wf_constr (c : mconstr) : bool :=
   forallb (fun l => negb (l =? 0)) (mc_lits c) &&
   (match mc_coeffs c with [] => true | cs => Nat.eqb (length cs) (length (mc_lits c)) end) &&
-  forallb (fun w => negb (w =? 0)) (mc_coeffs c) &&
-  (0 <=? mc_weight c) &&
-  (mc_hard c ||
-   (forallb (fun w => 0 <? w) (mc_coeffs c) &&
-    match mc_coeffs c with [] => true | _ => negb (mc_atleast c =? 0) end)).
+  (0 <=? mc_weight c).
 Definition wf_inst (inst : minst) : bool := forallb wf_constr inst.
 
 (* ---- mirror of New ---- *)
@@ -115,24 +111,34 @@ Definition gteq (lits : list lit) (coeffs : option (list Z)) (n : Z) : pbc :=
   | Some cs => let (ts, n') := gteq_terms (combine cs lits) n in PBC ts n'
   end.
 
-(* problem.go:25-61, one turn of the loop: new varInts, the PBConstr, and the entry
+(* the PBConstr returned by GtEq as (Lits, Weights, AtLeast); [gteq] is its meaning *)
+Definition gteq_c (lits : list lit) (coeffs : option (list Z)) (n : Z)
+  : list lit * option (list Z) * Z :=
+  match coeffs with
+  | None => (lits, None, n)
+  | Some cs =>
+    let (ts, n') := gteq_terms (combine cs lits) n in (map snd ts, Some (map fst ts), n')
+  end.
+
+(* problem.go:25-65, one turn of the loop: new varInts, the PBConstr, and the entry
    added to blockWeights (as a term of the cost function) for a soft constraint. *)
 Definition enc_constr (vi : vmap) (c : mconstr) : vmap * pbc * option term :=
   let (vi1, lits) := tr_lits vi (mc_lits c) in
   let coeffs := match mc_coeffs c with [] => None | cs => Some cs end in (* problem.go:38-42 *)
-  if mc_weight c =? 0 then (vi1, gteq lits coeffs (mc_atleast c), None)
-  else                                                                   (* problem.go:43 *)
-    let vi2 := vi1 ++ [None] in                                          (* problem.go:44 *)
-    let bl := Z.of_nat (length vi2) in                                   (* problem.go:45 *)
-    let coeffs1 :=                                                       (* problem.go:48-53 *)
-      match coeffs with
-      | None => if 1 <? mc_atleast c then Some (repeat 1 (length lits)) else None
+  if mc_weight c =? 0 then (vi1, gteq lits coeffs (mc_atleast c), None)  (* problem.go:64 *)
+  else                                                                   (* problem.go:44 *)
+    let vi2 := vi1 ++ [None] in                                          (* problem.go:45 *)
+    let bl := Z.of_nat (length vi2) in                                   (* problem.go:46 *)
+    let '(lits1, coeffs1, a1) := gteq_c lits coeffs (mc_atleast c) in    (* problem.go:51-52 *)
+    let coeffs2 :=                                                       (* problem.go:53-58 *)
+      match coeffs1 with
+      | None => if 1 <? a1 then Some (repeat 1 (length lits1)) else None
       | Some cs => Some cs
       end in
-    let lits2 := lits ++ [bl] in                                         (* problem.go:54 *)
-    let coeffs2 :=                                                       (* problem.go:55-58 *)
-      match coeffs1 with None => None | Some cs => Some (cs ++ [mc_atleast c]) end in
-    (vi2, gteq lits2 coeffs2 (mc_atleast c), Some (mc_weight c, bl)).    (* problem.go:60 *)
+    let lits3 := lits1 ++ [bl] in                                        (* problem.go:59 *)
+    let coeffs3 :=                                                       (* problem.go:60-62 *)
+      match coeffs2 with None => None | Some cs => Some (cs ++ [a1]) end in
+    (vi2, gteq lits3 coeffs3 a1, Some (mc_weight c, bl)).                (* problem.go:64 *)
 
 Fixpoint enc_all (vi : vmap) (cs : list mconstr) : vmap * problem * cost :=
   match cs with
@@ -150,11 +156,12 @@ Fixpoint enc_all (vi : vmap) (cs : list mconstr) : vmap * problem * cost :=
 Definition encode (inst : minst) : vmap * problem * cost := enc_all [] inst.
 
 (* ParsePBConstrs (parser_pb.go:80-86): NbVars = largest variable that still occurs
-   after GtEq dropped the zero coefficients. *)
+   after GtEq dropped the zero coefficients; problem.go:73-76 then grows it up to
+   len(pb.varInts). *)
 Definition pbc_maxvar (p : pbc) : Z := fold_right (fun t a => Z.max (Z.abs (snd t)) a) 0 (terms p).
 Definition problem_nbvars (P : problem) : Z := fold_right (fun p a => Z.max (pbc_maxvar p) a) 0 P.
 
-(* problem.go:98-104: the named part of the solver's model *)
+(* problem.go:106-112: the named part of the solver's model *)
 Fixpoint named_model (vi : vmap) (m : model) : list (Z * bool) :=
   match vi, m with
   | Some v :: vi', b :: m' => (v, b) :: named_model vi' m'
@@ -167,12 +174,12 @@ Inductive mresult := MUnsat | MSat (m : list (Z * bool)) (cost : Z) | MGoPanic.
 
 Definition maxsat (solve : solver) (inst : minst) : mresult :=
   let '(vi, P, co) := encode inst in
-  let n := Z.to_nat (problem_nbvars P) in
-  match minimize_run solve n P (Some co) with      (* problem.go:94 *)
+  let n := Z.to_nat (Z.max (problem_nbvars P) (Z.of_nat (length vi))) in (* problem.go:72-76 *)
+  match minimize_run solve n P (Some co) with      (* problem.go:102 *)
   | MRDone w last =>
-    if w =? -1 then MUnsat                          (* problem.go:95-97 *)
+    if w =? -1 then MUnsat                          (* problem.go:103-105 *)
     else match last with
-         | Some m => MSat (named_model vi m) w      (* problem.go:98-105 *)
+         | Some m => MSat (named_model vi m) w      (* problem.go:106-113 *)
          | None => MGoPanic
          end
   | MRPanic => MGoPanic   (* s.model[lit.Var()] out of range (solver.go:1078), NewPBClause *)
@@ -204,25 +211,25 @@ Definition maxsat_model (solve : solver) (inst : minst) : option (model * Z) :=
 (* 2. The WCNF route.                                                  *)
 
 (* The file after tokenisation: header fields nbVars and top (0 when absent,
-   parser.go:81-86), and for each clause line its integer fields
+   parser.go:84-89), and for each clause line its integer fields
    weight l1 ... lk 0. *)
 Record wcnf := WCNF { w_nbvars : Z; w_top : Z; w_lines : list (list Z) }.
 
-(* parser.go:93, 129 *)
+(* parser.go:96, 132 *)
 Definition w_soft (top weight : Z) : bool := (top =? 0) || (weight <? top).
 
 (* lits[len(lits)-1] = x ; on an empty slice Go panics, here nothing happens *)
 Definition set_last (l : list Z) (x : Z) : list Z :=
   match l with [] => [] | _ => removelast l ++ [x] end.
 
-(* parser.go:111-135; the last field (the terminating 0, not checked by the Go code)
+(* parser.go:114-138; the last field (the terminating 0, not checked by the Go code)
    is overwritten by the relax literal or dropped *)
 Definition parse_wcnf_clause (fields : list Z) (top relax : Z) : list lit * Z :=
   let weight := hd 0 fields in
   let lits := tl fields in
   if w_soft top weight then (set_last lits relax, weight) else (removelast lits, weight).
 
-(* parser.go:87-98: clauses, weights, final relaxLit *)
+(* parser.go:90-101: clauses, weights, final relaxLit *)
 Fixpoint wcnf_loop (lines : list (list Z)) (top relax : Z) : list clause * list Z * Z :=
   match lines with
   | [] => ([], [], relax)
@@ -234,15 +241,16 @@ Fixpoint wcnf_loop (lines : list (list Z)) (top relax : Z) : list clause * list 
       let '(cs, ws, rl) := wcnf_loop r top relax in (cl :: cs, ws, rl)
   end.
 
-(* parser.go:100-107.  ParseSlice: every clause becomes a constraint of degree 1 and
-   NbVars is the largest variable occurring in the clauses (parser.go:13, 28-52). *)
+(* parser.go:100-109.  ParseSliceNb(clauses, relaxLit-1): every clause becomes a
+   constraint of degree 1 and NbVars is relaxLit-1, or the largest variable occurring in
+   the clauses if that is larger (solver/parser.go:22, 28-52). *)
 Definition wcnf_encode (w : wcnf) : nat * problem * cost :=
   let '(cs, ws, rl) := wcnf_loop (w_lines w) (w_top w) (w_nbvars w + 1) in
   let relax_lits :=
     map (fun i => w_nbvars w + Z.of_nat i + 1) (seq 0 (Z.to_nat (rl - w_nbvars w - 1))) in
-  (Z.to_nat (maxvar cs), cnf_problem cs, combine ws relax_lits).
+  (Z.to_nat (Z.max (rl - 1) (maxvar cs)), cnf_problem cs, combine ws relax_lits).
 
-(* res.Model[:s.firstRelax] (parser.go:34); None = slice bounds out of range *)
+(* res.Model[:s.firstRelax] (parser.go:27, 37); None = slice bounds out of range *)
 Definition trim_result (k : Z) (r : oresult) : option oresult :=
   match r with
   | OUnsat => Some OUnsat
@@ -262,7 +270,7 @@ Fixpoint trim_all (k : Z) (s : list oresult) : option (list oresult) :=
 
 Inductive wrun := WPanic | WDone (r : oresult) (stream : list oresult).
 
-(* parser.go:28-38: Optimal with a results channel *)
+(* parser.go:31-41: Optimal with a results channel *)
 Definition wcnf_optimal_chan (solve : solver) (w : wcnf) : wrun :=
   let '(n, P, co) := wcnf_encode w in
   match optimal_run solve n P (Some co) with
@@ -274,11 +282,15 @@ Definition wcnf_optimal_chan (solve : solver) (w : wcnf) : wrun :=
   | _ => WPanic
   end.
 
-(* parser.go:24-27: Optimal(nil, stop) returns the solver's result untouched *)
+(* parser.go:24-30: Optimal(nil, stop) trims the returned model too; nothing is streamed *)
 Definition wcnf_optimal_nil (solve : solver) (w : wcnf) : wrun :=
   let '(n, P, co) := wcnf_encode w in
   match optimal_run solve n P (Some co) with
-  | RDone r _ => WDone r []
+  | RDone r _ =>
+    match trim_result (w_nbvars w) r with
+    | Some r' => WDone r' []
+    | None => WPanic
+    end
   | _ => WPanic
   end.
 
@@ -304,11 +316,6 @@ Definition wf_line (nb : Z) (f : list Z) : bool :=
   forallb (fun l => negb (l =? 0) && (Z.abs l <=? nb)) (wl_clause f).
 Definition wf_wcnf (w : wcnf) : bool :=
   (0 <=? w_nbvars w) && forallb (wf_line (w_nbvars w)) (w_lines w).
-(* the solver knows at least the declared variables: some clause is soft, or the last
-   declared variable occurs in a clause *)
-Definition wcnf_covers (w : wcnf) : bool :=
-  w_nbvars w <=? Z.of_nat (fst (fst (wcnf_encode w))).
-
 (* ================================================================== *)
 (* Closed executable instances.                                        *)
 Definition maxsat_ref := maxsat ref_solve.
